@@ -90,6 +90,41 @@ theorem locals_flow :
     Gen.HclYaml.parseHclBodyCtx = "locals-ctx" ∧ Gen.HclYaml.localsRoot = "local" ∧
     Gen.HclYaml.localsBlockTypes = ["locals"] ∧ Gen.HclYaml.localsBlockFilter = ["locals"] := by decide
 
+/-- the functions on the way from the file to `AmmoConfig` -/
+def conversionFns : List String :=
+  ["ParseHCLFile", "decodeLocals", "decodeLocalBlock", "ConvertHCLToAmmo", "DecodeMap", "ParseAmmoConfig"]
+
+/-- one row of the regenerated error flow is fine: the error / diagnostics value is tested by the next statement and
+returned; the one exception is `PartialContent` in `ParseHCLFile`, whose diagnostics are (by the comment in the source)
+expected to carry errors about functions and self-references and are returned only when no content came back -/
+def errRowOK (r : String × String × String) : Bool :=
+  r.2.2 == "returned" ||
+  (r.1 == "ParseHCLFile" && r.2.1 == "(hcl.Body).PartialContent" && r.2.2 == "returned-on-other-condition")
+
+/-- no failure on the way is swallowed: a `locals` block that does not evaluate (`decodeLocalBlock` ← `Expr.Value`,
+`JustAttributes`), a body that does not decode (`gohcl.DecodeBody`), a marshal / unmarshal / decode step that fails —
+each is tested at once and returned, so the file is refused as a whole (model: `evalFile … = none` ⇒ refused) -/
+theorem errors_propagated :
+    Gen.HclYaml.errFlow.all errRowOK = true ∧
+    ("decodeLocals", "decodeLocalBlock", "returned") ∈ Gen.HclYaml.errFlow ∧
+    ("decodeLocalBlock", "(hcl.Expression).Value", "returned") ∈ Gen.HclYaml.errFlow ∧
+    ("decodeLocalBlock", "(hcl.Body).JustAttributes", "returned") ∈ Gen.HclYaml.errFlow ∧
+    ("ParseHCLFile", "decodeLocals", "returned") ∈ Gen.HclYaml.errFlow ∧
+    ("ParseHCLFile", "gohcl.DecodeBody", "returned") ∈ Gen.HclYaml.errFlow ∧
+    ("ConvertHCLToAmmo", "yaml.Marshal", "returned") ∈ Gen.HclYaml.errFlow ∧
+    ("ConvertHCLToAmmo", "DecodeMap", "returned") ∈ Gen.HclYaml.errFlow := by decide
+
+/-- the loops of the locals evaluation leave nothing out: `decodeLocals` skips a block only when it is nil,
+`decodeLocalBlock` has no `continue` / `break` and stores every attribute's value under the attribute's name -/
+theorem locals_loops_total :
+    (Gen.HclYaml.localsLoopBranches.all fun b => b == "continue:blk==nil") = true ∧
+    Gen.HclYaml.localBlockBranches = [] ∧ Gen.HclYaml.localBlockStoresAll = true := by decide
+
+/-- no reader of the decoded `AmmoConfig` (scenario/http, scenario/grpc, config/decode.go, config/config.go) compares a
+slice or a map with nil or uses `reflect.DeepEqual`: they range over them, take `len`, index them — a nil and an empty
+collection are the same to them, as the model assumes when it identifies the two -/
+theorem readers_nil_blind : Gen.HclYaml.readerNilTests = [] := by decide
+
 /-- `ParseHCLFile` still splits the body (`PartialContent`), evaluates the locals and decodes the rest with gohcl -/
 theorem parseHcl_shape :
     "f.Body.PartialContent" ∈ Gen.HclYaml.parseHclCalls ∧ "decodeLocals" ∈ Gen.HclYaml.parseHclCalls ∧
